@@ -251,6 +251,11 @@ def ob_timingdata(kind, budget_s=60):
     return symx.explore(run, budget_s=budget_s)
 
 
+def ob_shim_differential(budget_s=120):
+    from vlib import shimtest
+    return shimtest.ob_shim_differential(budget_s)
+
+
 def ob_overrides_present(budget_s=10):
     """structural: every operator the property names is overridden in class Beat (regenerated from the AST)"""
     from vlib import symx
@@ -270,7 +275,9 @@ def ob_overrides_present(budget_s=10):
 
 
 def obligations(tier):
-    obs = [dict(name="construct_exact", func="ob_construct_exact", args=(), budget_s=120, bounds="n, d unbounded integers, d != 0; Fraction denominators " + str(DENS)),
+    obs = [dict(name="shim_differential", func="ob_shim_differential", args=(), budget_s=120,
+                bounds="the repository's 70 timing/notes unit tests executed inside the shim-loaded modules (validation of the stand-ins; a failure is fatal)"),
+           dict(name="construct_exact", func="ob_construct_exact", args=(), budget_s=120, bounds="n, d unbounded integers, d != 0; Fraction denominators " + str(DENS)),
            dict(name="construct_round", func="ob_construct_round", args=(), budget_s=120, bounds="x any real with |x| <= 1e7; float / Decimal / decimal string / from_str"),
            dict(name="unary", func="ob_unary", args=(), budget_s=120, bounds="numerator unbounded, denominators " + str(DENS)),
            dict(name="text_roundtrip", func="ob_text_roundtrip", args=(), budget_s=120, bounds="all integers k (tick index), unbounded"),
